@@ -63,16 +63,17 @@ NestedCore(ls, rs, lcols, rcols, on, rAlias, outer, data) ==
                           Concat([i \in 1..Len(lrows(lk)) |-> [j \in 1..Len(rrows(ms[b])) |-> Merge(lrows(lk)[i], rrows(ms[b])[j])]])])
                    ELSE IF outer THEN [i \in 1..Len(lrows(lk)) |-> Put(lrows(lk)[i], rAlias, Null)] ELSE <<>>]))
 
-\* from = [k|->"join", type, l, r, on]; ls / rs the aliased rows of the two sides
+\* from = [k|->"join", type, l, r, on] (or using instead of on); ls / rs the aliased rows of the two sides
 JoinModel(from, ls, rs, requested, data) ==
     LET swap == from.type = "right"
         L == IF swap THEN rs ELSE ls
         R == IF swap THEN ls ELSE rs
         la == IF swap THEN from.r.as ELSE from.l.as
         ra == IF swap THEN from.l.as ELSE from.r.as
-        lc == SideCols(from.on, la)
-        rc == SideCols(from.on, ra)
+        on == JoinOn(from)
+        lc == SideCols(on, la)
+        rc == SideCols(on, ra)
         outer == from.type # "inner"
-    IN  IF Strategy(from.on, requested) = "hash" THEN ArrV(HashCore(L, R, lc, rc, ra, outer))
-        ELSE NestedCore(L, R, lc, rc, from.on, ra, outer, data)
+    IN  IF Strategy(on, requested) = "hash" THEN ArrV(HashCore(L, R, lc, rc, ra, outer))
+        ELSE NestedCore(L, R, lc, rc, on, ra, outer, data)
 =============================================================================
